@@ -910,4 +910,259 @@ example : pushToCells ⟨[none, none, none], some [some 3, none, some 2]⟩ = .o
 example : pushToCells ⟨[none, some 1, none], some [some 3]⟩ = .error .malformedInput := by rfl
 
 
+
+/-! ## importances -/
+
+theorem cellEnt_imp_cons (ps : List P) (v : Rat) (t : List MParam) (p : P) :
+    cellEnt (⟨K.imp, ps, v⟩ :: t) K.imp p = (if p ∈ ps then [v] else []) ++ cellEnt t K.imp p := by
+  by_cases h : p ∈ ps <;> simp [cellEnt, cellEntries, applies, convParam, convK, h]
+
+theorem impKeep_mem (close : Rat → Rat → Bool) (es : List ImpE) (printed : List P) (e : ImpE) (p : P) :
+    p ∈ impKeep close es printed e ↔
+      p ∈ e.cl ∧ (p = e.p ∨ (p ∉ printed ∧ close (impGet es e.p) (impGet es p) = true)) := by
+  simp [impKeep, List.mem_filter]
+
+/-- a particle that is printed already is not printed again -/
+theorem impFormatCell_printed (close : Rat → Rat → Bool) (es : List ImpE) (p : P) :
+    ∀ (l : List ImpE) (printed : List P), p ∈ printed →
+      cellEnt (impFormatCell close es l printed) K.imp p = [] := by
+  intro l
+  induction l with
+  | nil => intro printed _; rfl
+  | cons e rest ih =>
+    intro printed hp
+    simp only [impFormatCell]
+    split
+    · exact ih printed hp
+    · rename_i hne
+      have hne' : e.p ∉ printed := by simpa using hne
+      rw [cellEnt_imp_cons]
+      have hk : p ∉ impKeep close es printed e := by
+        rw [impKeep_mem]
+        rintro ⟨_, h | ⟨h, _⟩⟩
+        · exact hne' (h ▸ hp)
+        · exact h hp
+      rw [if_neg hk, List.nil_append]
+      exact ih _ (List.mem_append_left _ (List.mem_append_left _ hp))
+
+/-- **each importance a cell holds is printed exactly once on its card** (`Importance._format_tree`, cell-block
+    branch, for ANY list of entries): for a particle `p` that is not printed yet and has an entry in the rest of the
+    loop, every tree naming its own particle, the loop prints exactly one `IMP` parameter that lists `p`; its value is
+    the value of `p`'s own entry, or the value of an entry that `p`'s importance was found close to. -/
+theorem impFormatCell_once (close : Rat → Rat → Bool) (es : List ImpE) (p : P) :
+    ∀ (l : List ImpE) (printed : List P), p ∉ printed →
+      (∃ e ∈ l, e.p = p) → (∀ e ∈ l, e.p ∈ e.cl) →
+      ∃ v, cellEnt (impFormatCell close es l printed) K.imp p = [v] ∧
+        ((∃ e ∈ l, e.p = p ∧ v = e.v) ∨ ∃ e ∈ l, v = e.v ∧ close (impGet es e.p) (impGet es p) = true) := by
+  intro l
+  induction l with
+  | nil => intro printed _ h; obtain ⟨e, he, _⟩ := h; simp at he
+  | cons e rest ih =>
+    intro printed hp hex hcl
+    simp only [impFormatCell]
+    have hclr : ∀ x ∈ rest, x.p ∈ x.cl := fun x hx => hcl x (List.mem_cons_of_mem _ hx)
+    have lift : ∀ v, ((∃ x ∈ rest, x.p = p ∧ v = x.v) ∨ ∃ x ∈ rest, v = x.v ∧ close (impGet es x.p) (impGet es p) = true) →
+        ((∃ x ∈ e :: rest, x.p = p ∧ v = x.v) ∨ ∃ x ∈ e :: rest, v = x.v ∧ close (impGet es x.p) (impGet es p) = true) := by
+      intro v h2
+      rcases h2 with ⟨x, hx, hxp, hv⟩ | ⟨x, hx, hv, hc⟩
+      · exact Or.inl ⟨x, List.mem_cons_of_mem _ hx, hxp, hv⟩
+      · exact Or.inr ⟨x, List.mem_cons_of_mem _ hx, hv, hc⟩
+    have down : e.p ≠ p → ∃ x ∈ rest, x.p = p := by
+      intro hne
+      obtain ⟨x, hx, hxp⟩ := hex
+      rcases List.mem_cons.mp hx with rfl | hx'
+      · exact absurd hxp hne
+      · exact ⟨x, hx', hxp⟩
+    split
+    · rename_i hin
+      have hin' : e.p ∈ printed := by simpa using hin
+      have hne : e.p ≠ p := fun h => hp (h ▸ hin')
+      obtain ⟨v, h1, h2⟩ := ih printed hp (down hne) hclr
+      exact ⟨v, h1, lift v h2⟩
+    · rw [cellEnt_imp_cons]
+      by_cases hk : p ∈ impKeep close es printed e
+      · have hp2 : p ∈ printed ++ impKeep close es printed e ++ [e.p] :=
+          List.mem_append_left _ (List.mem_append_right _ hk)
+        refine ⟨e.v, ?_, ?_⟩
+        · rw [if_pos hk, impFormatCell_printed close es p rest _ hp2]; rfl
+        · by_cases hpe : e.p = p
+          · exact Or.inl ⟨e, List.mem_cons_self, hpe, rfl⟩
+          · right
+            refine ⟨e, List.mem_cons_self, rfl, ?_⟩
+            rcases (impKeep_mem close es printed e p).mp hk with ⟨_, h | ⟨_, h⟩⟩
+            · exact absurd h.symm hpe
+            · exact h
+      · have hne : e.p ≠ p := by
+          intro h
+          apply hk
+          rw [impKeep_mem]
+          exact ⟨h ▸ hcl e List.mem_cons_self, Or.inl h.symm⟩
+        have hp2 : p ∉ printed ++ impKeep close es printed e ++ [e.p] := by
+          intro hm
+          rcases List.mem_append.mp hm with hm | hm
+          · rcases List.mem_append.mp hm with hm | hm
+            · exact hp hm
+            · exact hk hm
+          · simp at hm; exact hne hm.symm
+        obtain ⟨v, h1, h2⟩ := ih _ hp2 (down hne) hclr
+        refine ⟨v, ?_, lift v h2⟩
+        rw [if_neg hk, List.nil_append]
+        exact h1
+
+
+
+/-- **importances on the cell card: exactly once per particle the cell holds** — for every state and flag
+    assignment, in the written file: when IMP is kept in the cell block, every particle for which the cell holds an
+    importance (every tree naming its own particle) is given by exactly one `IMP` entry of the cell's own card and by
+    nothing in the data block; the value is that of the particle's own entry or of an entry it was found close to.
+    When IMP goes to the data block the cell card gives none. -/
+theorem C09_imp_cell_once (close : Rat → Rat → Bool) (st : St) (hw : DataInputsOnce st) (items : List MItem)
+    (h : writeToFile close st = .ok items) (i : Nat) (c : Cell) (hc : st.cells[i]? = some c) (p : P) :
+    (st.flags.imp = false → (∃ e ∈ c.imp, e.p = p) → (∀ e ∈ c.imp, e.p ∈ e.cl) →
+      ∃ v, table (render items) i (convK K.imp) p = [(Blk.cell, v)] ∧
+        ((∃ e ∈ c.imp, e.p = p ∧ v = e.v) ∨
+         ∃ e ∈ c.imp, v = e.v ∧ close (impGet c.imp e.p) (impGet c.imp p) = true)) ∧
+    (st.flags.imp = true → ∀ x ∈ table (render items) i (convK K.imp) p, x.1 = Blk.data) := by
+  obtain ⟨cs, hcs⟩ := write_inst_ok close st items h K.imp
+  rw [table_write close st hw items h i c hc K.imp p cs hcs]
+  constructor
+  · intro hf hex hcl
+    have hcs' : cs = [] := by
+      unfold formatDataInst at hcs
+      simp [prints, Flags.get, hf] at hcs
+      exact hcs
+    subst hcs'
+    obtain ⟨v, h1, h2⟩ := impFormatCell_once close c.imp p c.imp [] (by simp) hex hcl
+    refine ⟨v, ?_, h2⟩
+    have : formatCellInst close st.flags c K.imp = impFormatCell close c.imp c.imp [] := by
+      simp [formatCellInst, prints, Flags.get, hf, hasInformation]
+    rw [this, h1]
+    simp [ent, dataEntries]
+  · intro hf x hx
+    have : formatCellInst close st.flags c K.imp = [] := by
+      simp [formatCellInst, prints, Flags.get, hf]
+    rw [this] at hx
+    simp [cellEnt, cellEntries] at hx
+    obtain ⟨_, _, rfl⟩ := hx
+    rfl
+
+example :
+    let c : Cell := ⟨1, [⟨0, 1, [0, 1]⟩, ⟨1, 1, [0, 1]⟩, ⟨2, 2, [2]⟩], none, some 0, false, none, none, false, Flags.default⟩
+    (∀ e ∈ c.imp, e.p ∈ e.cl) ∧
+    cellEnt (impFormatCell (fun a b => a == b) c.imp c.imp []) K.imp 1 = [1] ∧
+    cellEnt (impFormatCell (fun a b => a == b) c.imp c.imp []) K.imp 2 = [2] := by
+  refine ⟨by decide, by decide, by decide⟩
+
+/-! importances in the data block -/
+
+theorem impCollectOne_get (p : P) : ∀ (cells : List Cell) (vs : List Rat), impCollectOne p cells = .ok vs →
+    vs.length = cells.length ∧ ∀ (i : Nat) (c : Cell), cells[i]? = some c → impHas c.imp p = true ∧ vs[i]? = some (impGet c.imp p) := by
+  intro cells
+  induction cells with
+  | nil => intro vs h; simp [impCollectOne] at h; subst h; simp
+  | cons c0 rest ih =>
+    intro vs h
+    simp only [impCollectOne] at h
+    split at h
+    · simp at h
+    · rename_i e he
+      split at h
+      · simp at h
+      · rename_i vs' hvs'
+        simp at h; subst h
+        obtain ⟨hl, hg⟩ := ih vs' hvs'
+        refine ⟨by simp [hl], ?_⟩
+        intro i c hc
+        cases i with
+        | zero =>
+          simp at hc; subst hc
+          refine ⟨?_, by simp [impGet, he]⟩
+          simp only [impHas, List.any_eq_true]
+          exact ⟨e, List.mem_of_find?_eq_some he, by simpa using List.find?_some he⟩
+        | succ j => simpa using hg j c (by simpa using hc)
+
+theorem impCollect_mem (cells : List Cell) : ∀ (mode : List P) (nv : List (P × List Rat × List P)),
+    impCollect cells mode = .ok nv → ∀ x ∈ nv, impCollectOne x.1 cells = .ok x.2.1 := by
+  intro mode
+  induction mode with
+  | nil => intro nv h x hx; simp [impCollect] at h; subst h; simp at hx
+  | cons p rest ih =>
+    intro nv h x hx
+    simp only [impCollect] at h
+    split at h
+    · simp at h
+    · rename_i vs hvs
+      split at h
+      · simp at h
+      · rename_i r hr
+        simp at h; subst h
+        rcases List.mem_cons.mp hx with rfl | hx'
+        · exact hvs
+        · exact ih r hr x hx'
+
+theorem tryCombine_mem (close : Rat → Rat → Bool) (nv : List (P × List Rat × List P)) :
+    ∀ (l : List (P × List Rat × List P)) (covered : List P), ∀ g ∈ tryCombineValues close nv l covered,
+      ∃ x ∈ l, g.1.head? = some x.1 ∧ g.2 = x.2.1 := by
+  intro l
+  induction l with
+  | nil => intro covered g hg; simp [tryCombineValues] at hg
+  | cons x rest ih =>
+    intro covered g hg
+    obtain ⟨p, gold, pair⟩ := x
+    simp only [tryCombineValues] at hg
+    split at hg
+    · obtain ⟨y, hy, h1, h2⟩ := ih covered g hg
+      exact ⟨y, List.mem_cons_of_mem _ hy, h1, h2⟩
+    · rcases List.mem_cons.mp hg with rfl | hg'
+      · exact ⟨(p, gold, pair), List.mem_cons_self, rfl, rfl⟩
+      · obtain ⟨y, hy, h1, h2⟩ := ih _ g hg'
+        exact ⟨y, List.mem_cons_of_mem _ hy, h1, h2⟩
+
+/-- **IMP cards of the data block are aligned**: every `IMP` card the data-level instance writes has one entry per
+    cell (no jump), and entry `i` is the importance the `i`-th cell (in cell order) holds for the card's first
+    particle; the other particles of a combined card were found close to it entry by entry (`_try_combine_values`). -/
+theorem C09_imp_data_aligned (close : Rat → Rat → Bool) (st : St) (cs : List MCard)
+    (h : formatDataInst close st K.imp = .ok cs) :
+    ∀ card ∈ cs, ∃ p, card.ps.head? = some p ∧ card.vec.length = st.cells.length ∧
+      ∀ (i : Nat) (c : Cell), st.cells[i]? = some c → impHas c.imp p = true ∧ card.vec[i]? = some (some (impGet c.imp p)) := by
+  intro card hcard
+  unfold formatDataInst at h
+  split at h
+  · simp only [impFormatData] at h
+    split at h
+    · simp at h
+    · rename_i nv hnv
+      simp at h; subst h
+      simp only [List.mem_map] at hcard
+      obtain ⟨g, hg, rfl⟩ := hcard
+      obtain ⟨x, hx, h1, h2⟩ := tryCombine_mem close nv nv [] g hg
+      have hone := impCollect_mem st.cells st.mode nv hnv x hx
+      obtain ⟨hl, hget⟩ := impCollectOne_get x.1 st.cells x.2.1 hone
+      refine ⟨x.1, h1, by simp [h2, hl], ?_⟩
+      intro i c hc
+      obtain ⟨a, b⟩ := hget i c hc
+      refine ⟨a, ?_⟩
+      simp [h2, b]
+  · simp at h; subst h; simp at hcard
+
+/-- an IMP vector cannot have a hole: when IMP goes to the data block and some cell holds no importance for a
+    particle of the mode, the write is refused (`ParticleTypeNotInCell`) -/
+theorem C09_imp_refused (cells : List Cell) (p : P) (c : Cell) (hc : c ∈ cells) (hp : impHas c.imp p = false) :
+    impCollectOne p cells = .error .particleTypeNotInCell := by
+  induction cells with
+  | nil => simp at hc
+  | cons c0 rest ih =>
+    simp only [impCollectOne]
+    cases hf : c0.imp.find? (fun e => e.p == p) with
+    | none => rfl
+    | some e =>
+      rcases List.mem_cons.mp hc with rfl | hc'
+      · exfalso
+        have : impHas c.imp p = true := by
+          simp only [impHas, List.any_eq_true]
+          exact ⟨e, List.mem_of_find?_eq_some hf, by simpa using List.find?_some hf⟩
+        rw [hp] at this; cases this
+      · simp [ih hc']
+
+
 end MontePyVerif.C09
